@@ -1106,7 +1106,7 @@ func (m *membersPool) Get(k *net.UDPAddr) (Member, bool) {
 	case !found, i == nil:
 		return nil, false
 	default:
-		return i, false
+		return i, true
 	}
 }
 
